@@ -27,7 +27,7 @@ structure KModel (V α : Type) where
   nb : Nat
   drift : Nat → V → α
 
-variable {V V1 V2 α : Type}
+variable {V A B α : Type}
 
 /-- `r = r0; for (k = 0; k != n; ++k) r += f k` -/
 def sumFrom [Add α] (r0 : α) (f : Nat → α) : Nat → α
@@ -76,11 +76,11 @@ structure P2 (A B : Type) where
   a : A
   b : B
 
-instance [Sub V1] [Sub V2] : Sub (P2 V1 V2) := ⟨fun u v => ⟨u.a - v.a, u.b - v.b⟩⟩
+instance [Sub A] [Sub B] : Sub (P2 A B) := ⟨fun u v => ⟨u.a - v.a, u.b - v.b⟩⟩
 
 /-- covariance `m1.covariance(h1) * m2.covariance(h2)`, diagonal `T(0)`, drifts of `Model1` on the
 first variable then drifts of `Model2` on the second -/
-def factorized [Mul α] [OfNat α 0] (M1 : KModel V1 α) (M2 : KModel V2 α) : KModel (P2 V1 V2) α where
+def factorized [Mul α] [OfNat α 0] (M1 : KModel A α) (M2 : KModel B α) : KModel (P2 A B) α where
   cov h := M1.cov h.a * M2.cov h.b
   nugget _ _ := 0
   nb := M1.nb + M2.nb
@@ -110,9 +110,12 @@ structure Fn (α : Type) where
   abs : α → α
   sqrt : α → α
   log : α → α
-  /-- `10 * numeric_limits<T>::epsilon()` -/
-  tenEps : α
-  /-- the literal `0.5` -/
+  /-- `numeric_limits<T>::epsilon()` -/
+  eps : α
+  /-- `numeric_limits<T>::min()` -/
+  dmin : α
+  /-- the literals `10` and `0.5` -/
+  ten : α
   half : α
 
 section models
@@ -136,7 +139,7 @@ def pieceWise1D (fn : Fn α) (nug : α) : KModel α α where
 `h2 = v0*v0 + v1*v1; if (h2 < 10*eps) return 0; return 0.5*h2*log(h2);` -/
 def cov2D [LT α] [DecidableRel (fun a b : α => a < b)] (fn : Fn α) (v : V2 α) : α :=
   let h2 := v.x * v.x + v.y * v.y
-  if h2 < fn.tenEps then 0 else fn.half * h2 * fn.log h2
+  if h2 < fn.ten * fn.eps then 0 else fn.half * h2 * fn.log h2
 
 def default2D [LT α] [DecidableRel (fun a b : α => a < b)] (fn : Fn α) (nug : α) : KModel (V2 α) α where
   cov := cov2D fn
@@ -172,11 +175,22 @@ def maxElem (x0 : α) (l : List α) : α := l.foldl (fun m x => if m < x then x 
 /-- `*std::min_element(v.begin(), v.end())` -/
 def minElem (x0 : α) (l : List α) : α := l.foldl (fun m x => if x < m then x else m) x0
 
-/-- `KrigingUtilities::normalize`: `{1/(max-min), -min/(max-min)}` -/
-def normalize [OfNat α 1] [Sub α] [Div α] [Neg α] (x0 : α) (l : List α) : α × α :=
+/-- `compareFloatingPointValues(a, b)` (KrigingUtilities.cxx) -/
+def nearlyEqual [Sub α] [Mul α] (fn : Fn α) (a b : α) : Bool :=
+  let aa := fn.abs a
+  let ab := fn.abs b
+  let d := fn.abs (a - b)
+  if aa < fn.ten * fn.dmin ∧ ab < fn.ten * fn.dmin then true
+  else decide (d < aa * fn.ten * fn.eps) || decide (d < ab * fn.ten * fn.eps)
+
+/-- `KrigingUtilities::normalize`: raises when `max - min` is almost `0`, else
+`{1/(max-min), -min/(max-min)}` -/
+def normalize [OfNat α 0] [OfNat α 1] [Sub α] [Mul α] [Div α] [Neg α] (fn : Fn α) (x0 : α) (l : List α) :
+    Option (α × α) :=
   let mx := maxElem x0 l
   let mn := minElem x0 l
-  (1 / (mx - mn), -mn / (mx - mn))
+  if nearlyEqual fn (mx - mn) 0 then none
+  else some (1 / (mx - mn), -mn / (mx - mn))
 
 end normalize
 
